@@ -57,6 +57,13 @@ CHECKS = {
         technique="deterministic simulation: scripted RNG seam (device as probabilistic automaton), adversarial outcome scheduling, refinement against an independent reference simulator",
         design="4/C29",
     ),
+    "C21": dict(
+        category="exploration",
+        text="Dynamic circuits are executed with every random draw owned by the simulator. One-shot mode: each binomial(1, p) of a mid-circuit measurement and each terminal choice(p=...) offers a distribution and the simulator forces the outcome (sampling or adversarial policies: all zeros, all ones, always the rarer outcome, alternating); per shot every offered p must equal the branch enumerator's conditional probability given the forced prefix, every terminal offer must be the conditional distribution of a requested measurement, and the returned value must be the documented function of the forced per-shot records with postselection-invalid shots discarded. Tree-traversal with shots: every offered distribution must be the Born distribution of a reachable node of the reference outcome tree. Analytic deferred / tree-traversal results are compared with the branch average (reference validation, reported separately). No statistical test is used.",
+        note="Trusted: the independent branch enumerator (built on the reference simulator validated in C29). One-shot execution is assumed to draw one binomial per measurement per shot in program order. Mode A is input generation against a model, not simulation, and says so in the evidence. fill-shots in one-shot mode and JAX keys are not driven. Four recorded findings about tree-traversal (measurement-value statistics in analytic mode; all shots discarded; impossible subtree) are excluded by mode and exception class.",
+        technique="deterministic simulation: scripted RNG seam with forced measurement-outcome histories, refinement against an independent branch enumerator",
+        design="4/C21",
+    ),
 }
 
 NA = {}
